@@ -681,6 +681,49 @@ ObserveEv(ev) ==
 MatrixOK(x) == IsArray(x) /\ Rank(x) = 2 /\ Valid(x)
 FactorsValid(fs, p) == F(\A i \in 1..Len(fs) : IsArray(fs[i]) /\ Valid(fs[i]), p \o ".factors_valid")
 
+\* x = a . b over the last axis of a and the first of b, decided by the spec itself on the recorded factors
+\* (exact factors only; float factors are judged through the logged observations)
+BlockEntry(b, i, j) == b.data[Ravel(<<i - 1, j - 1>>, b.shape) + 1]
+ProductDefined(x, a, b) ==
+  /\ IsArray(a) /\ IsArray(b) /\ Valid(a) /\ Valid(b) /\ AllExact(a) /\ AllExact(b) /\ AllExact(x)
+  /\ Rank(b) >= 1 /\ Rank(a) >= 1 /\ Contractible(a, b, <<Rank(a)>>, <<1>>)
+  /\ (IsFermi(x) => IsFermi(a) /\ IsFermi(b) /\ LabelsOK(a.oddpos \o b.oddpos) /\ LabelsOK(x.oddpos))
+\* <<elements of x, elements of a . b>> brought to the same label order (fermionic: both reduced)
+ProductPair(x, a, b) ==
+  IF IsFermi(x)
+  THEN LET lab == GContractLabels(a, b) IN
+       <<FlipDen(Den(x), ResolveSign(x.oddpos)).E,
+         FlipDen(GContractDen(a, b, <<Rank(a)>>, <<1>>),
+                 ResolveSign(lab) * ReorderSign(Remaining(lab), Remaining(x.oddpos))).E>>
+  ELSE <<Elem(x), ContractElems(Elem(a), Elem(b), <<Rank(a)>>, <<1>>)>>
+ProductIs(x, a, b, p) ==
+  IF ~ProductDefined(x, a, b) THEN {}
+  ELSE IF IsFermi(x) /\ ~SameLabelSet(Remaining(x.oddpos), Remaining(GContractLabels(a, b))) THEN {p \o ".labels"}
+  ELSE LET pr == ProductPair(x, a, b) IN F(pr[1] = pr[2], p)
+\* squared norm of the difference of two element sets
+DiffNorm2(E1, E2) ==
+  LET K == {e.k : e \in E1 \cup E2} IN
+  FoldSet(LAMBDA k, acc : acc + VAbs2(VSub(ValAt(E1, k), ValAt(E2, k))), 0, K)
+UpperTriangular(r, stabilized, p) ==
+  IF ~(IsArray(r) /\ Rank(r) = 2 /\ AllExact(r)) THEN {}
+  ELSE F(\A k \in 1..Len(r.blocks) : LET b == r.blocks[k] IN
+           \A i \in 1..b.shape[1] : \A j \in 1..b.shape[2] : i > j => BlockEntry(b, i, j) = VZero, p \o ".r_upper")
+       \cup (IF stabilized
+             THEN F(\A k \in 1..Len(r.blocks) : LET b == r.blocks[k] IN
+                      \A i \in 1..MinI(b.shape[1], b.shape[2]) : BlockEntry(b, i, i)[1] >= 0 /\ BlockEntry(b, i, i)[2] = 0,
+                    p \o ".r_diag_nonneg")
+             ELSE {})
+\* columns (cols = TRUE) or rows of every stored block are orthonormal
+Orthonormal(f, cols, p) ==
+  IF ~(IsArray(f) /\ Rank(f) = 2 /\ AllExact(f)) THEN {}
+  ELSE F(\A k \in 1..Len(f.blocks) :
+           LET b == f.blocks[k]
+               n == IF cols THEN b.shape[2] ELSE b.shape[1]
+               m == IF cols THEN b.shape[1] ELSE b.shape[2]
+               e(t, i) == IF cols THEN BlockEntry(b, t, i) ELSE BlockEntry(b, i, t)
+           IN \A i, j \in 1..n :
+                SumSeqV([t \in 1..m |-> VMul(VConj(e(t, i)), e(t, j))]) = (IF i = j THEN VOne ELSE VZero), p)
+
 QrEv(ev, pre) ==
   LET x == Ins(ev, pre, 1) IN
   Judge(ev, MatrixOK(x),
@@ -688,7 +731,9 @@ QrEv(ev, pre) ==
         r == Outs(ev, 2)
     IN FactorsValid(<<q, r>>, "C11.qr")
        \cup (IF IsArray(q) /\ IsArray(r) THEN FactorStructure(x, q, r, "C11.qr") ELSE {"C11.qr.type"})
-       \cup (IF IsArray(q) /\ IsFermi(x) THEN F(Labels(q) = Labels(x) /\ Labels(r) = <<>>, "C11.qr.labels") ELSE {}),
+       \cup (IF IsArray(q) /\ IsFermi(x) THEN F(Labels(q) = Labels(x) /\ Labels(r) = <<>>, "C11.qr.labels") ELSE {})
+       \cup ProductIs(x, q, r, "C11.qr.product") \cup Orthonormal(q, TRUE, "C11.qr.isometry")
+       \cup UpperTriangular(r, Flag(ev.args, "stabilized"), "C11.qr"),
     "C11.qr")
 
 SvdEv(ev, pre) ==
@@ -708,7 +753,10 @@ SvdEv(ev, pre) ==
                              \cup (IF AllExact(x) /\ IsRealE(D) /\ IsMonomial(D)
                                    THEN F(NZVecBag(s) = MagBagReal(D), "C12.svd.spectrum_equals_dense") ELSE {})
                         ELSE {})
-             ELSE {"C11.svd.type"}),
+             ELSE {"C11.svd.type"})
+       \cup Orthonormal(u, TRUE, "C11.svd.u_isometry") \cup Orthonormal(vh, FALSE, "C11.svd.vh_isometry")
+       \cup (IF IsArray(u) /\ IsArray(vh) /\ IsVector(s) /\ AllExact(s) /\ AllExact(vh) /\ Valid(vh) /\ MulDiagEnabled(vh, s, 1)
+             THEN ProductIs(x, u, IMulDiag(vh, s, 1), "C11.svd.product") ELSE {}),
     "C11.svd")
 
 Hermitian(a) ==
@@ -735,7 +783,10 @@ EighEv(ev, pre) ==
                                   /\ Cardinality({e \in VecElem(w) : e.v = VZero}) = zeros,
                                "C12.eigh.spectrum_equals_dense")
                         ELSE {})
-             ELSE {"C11.eigh.type"}),
+             ELSE {"C11.eigh.type"})
+       \cup Orthonormal(v, TRUE, "C11.eigh.unitary")
+       \cup (IF IsArray(v) /\ IsVector(w) /\ ~IsFermi(a) /\ AllExact(w) /\ AllExact(v) /\ Valid(v) /\ MulDiagEnabled(v, w, 2)
+             THEN ProductIs(a, IMulDiag(v, w, 2), IDagger(v), "C11.eigh.product") ELSE {}),
     "C11.eigh")
 
 SolveEv(ev, pre) ==
@@ -751,7 +802,8 @@ SolveEv(ev, pre) ==
       \cup (IF IsArray(x) /\ Rank(x) = 1
             THEN F(x.charge = Combine(a.sym, b.charge, Neg(a.sym, a.charge)), "C11.solve.charge")
                  \cup F(x.ix[1].dual = ~a.ix[2].dual /\ CmSet(x.ix[1]) \subseteq CmSet(a.ix[2]), "C11.solve.index")
-            ELSE {"C11.solve.type"}),
+            ELSE {"C11.solve.type"})
+      \cup ProductIs(b, a, x, "C11.solve.product"),
     "C11.solve")
 
 \* ---- truncation ----
@@ -806,7 +858,18 @@ TruncEv(ev, pre) ==
                                    THEN F(\A c \in VecKeys(s) : c \in cols
                                              /\ [i \in 1..Len(VecVals(s, c)) |-> VecVals(s, c)[i][1]]
                                                  = SubSeq(FullDesc(x, c), 1, Len(VecVals(s, c))), "C13.nocutoff.largest_within_charge")
-                                   ELSE {}))),
+                                   ELSE {}))
+               \* the product of the recorded factors, computed by the spec: the kept part of the input, and
+               \* (values not absorbed) squared error = squared weight that is not kept
+               \cup (IF ~family \/ ~AllExact(U) \/ ~AllExact(VH) \/ ~(IsNone(s) \/ (IsVector(s) /\ AllExact(s))) THEN {}
+                     ELSE LET R == IF IsVector(s) /\ MulDiagEnabled(VH, s, 1) THEN IMulDiag(VH, s, 1) ELSE VH IN
+                          IF ~ProductDefined(x, U, R) \/ (IsFermi(x) /\ ~SameLabelSet(Remaining(x.oddpos), Remaining(GContractLabels(U, R)))) THEN {}
+                          ELSE LET pr == ProductPair(x, U, R) IN
+                               F(pr[2] \subseteq pr[1], "C13.product_is_kept_part")
+                               \cup (IF IsVector(s)
+                                     THEN F(DiffNorm2(pr[1], pr[2]) = Norm2(pr[1]) - Norm2(VecElem(s)), "C13.error_is_discarded_weight.spec")
+                                          \cup Orthonormal(U, TRUE, "C13.u_isometry") \cup Orthonormal(VH, FALSE, "C13.vh_isometry")
+                                     ELSE {}))),
     "C13.svd_truncated")
 
 LinalgFails(ev, pre) ==
@@ -1104,8 +1167,18 @@ OpFails(ev, pre) ==
   ELSE IF ev.op = "ham_keys" THEN HamKeysEv(ev)
   ELSE IF ev.op = "site_info" THEN SiteInfoEv(ev)
   ELSE IF ev.op = "op_apply" THEN OpApplyEv(ev, pre)
-  ELSE IF ev.op = "rel" THEN PseudoFails(ev, pre)
   ELSE IF ev.op = "init" \/ ev.in = <<>> THEN {}
+  ELSE IF ~InputsValid(ev, pre)
+  THEN \* an operand is not a valid array (reported where it was produced): the value clauses presuppose validity.
+       \* A relation between two results still has a meaning: they are not "the same" unless they are the same record.
+       (IF ev.op = "rel" /\ Len(ev.in) = 2 /\ ev.args.how \in {"same", "blocks", "array_equal", "array_equal_den", "same_decoded"}
+        THEN LET strip(x) == IF IsArray(x)
+                             THEN <<x.charge, x.ix, [i \in 1..Len(x.blocks) |-> <<x.blocks[i].s, x.blocks[i].shape, x.blocks[i].data>>],
+                                    SeqRange(x.phases), x.oddpos>>
+                             ELSE x
+             IN F(strip(Ins(ev, pre, 1)) = strip(Ins(ev, pre, 2)), ev.args.clause)
+        ELSE {})
+  ELSE IF ev.op = "rel" THEN PseudoFails(ev, pre)
   ELSE IF ev.op = "observe" THEN ObserveEv(ev)
   ELSE IF ev.op \in {"qr", "svd", "eigh", "solve", "svd_truncated"} THEN LinalgFails(ev, pre)
   ELSE IF \E i \in 1..Len(ev.in) : LET v == pre[ev.in[i]] IN (IsArray(v) \/ IsVector(v)) /\ ~AllExact(v)
@@ -1145,6 +1218,7 @@ EventDrift(ev, pre) ==
                           phases |-> SeqRange(d.phases), oddpos |-> d.oddpos]
                IN {"L2+init"} \cup F(L2Eq(BuildArray(d.sym, d.kind, dd), ev.regs[r]), "L2.init." \o r) : r \in DOMAIN ev.args.descs }
   ELSE IF ev.op \in {"rel", "init", "observe", "op_apply", "make_state"} THEN {}
+  ELSE IF ~InputsValid(ev, pre) THEN {}
   ELSE IF ev.op \in {"sum", "norm_sq", "trace", "to_dense"} /\ ev.in # <<>> THEN ImplScalarDrift(ev, pre)
   ELSE ImplDrift(ev, pre)
 
